@@ -190,9 +190,17 @@ func checkC17(p *Prog, rp *Report) {
 			scripts = append(scripts, []string{a, b})
 			for _, c := range kinds {
 				scripts = append(scripts, []string{a, b, c})
+				if rp.Tier == "thorough" { // every sequence of four line kinds as well
+					for _, d := range kinds {
+						scripts = append(scripts, []string{a, b, c, d})
+					}
+				}
 			}
 		}
 	}
+	// lines far longer than any reader buffer
+	longChange := "  * Closes: " + strings.Repeat("#123456, ", 700) + "\n"
+	scripts = append(scripts, []string{H1, B, longChange, C2, B, T1}, []string{H1, B, C1, B, T1, B, H2, B, longChange, B, T2})
 	one := []string{H1, B, C1, C2, B, T1}
 	two := []string{H2, B, C1, B, T2, B, H1, B, C1, C2, B, T1}
 	for _, base := range [][]string{one, two} {
